@@ -24,11 +24,14 @@ struct C2(u32, Vec<u8>);
 struct Got(Vec<(u8, u32, bool)>);
 
 fn payload(kind: u8, seq: u32) -> Vec<u8> {
-    let len = match seq % 7 {
+    // message = seq varint (1..3 bytes) + length varint (1..2 bytes) + payload; class 4 puts the whole
+    // message at 1191..1200 bytes, i.e. around the usual maximum message size of 1200
+    let len = match seq % 9 {
         0 => 0,
         1 => 1,
         2 => 1100,
         3 => 127 + (seq % 3) as usize,
+        4 => 1188 + (seq / 9 % 8) as usize,
         _ => (seq.wrapping_mul(2654435761) % 1100) as usize,
     };
     (0..len).map(|i| (seq as usize + i * 31 + kind as usize) as u8).collect()
@@ -189,7 +192,13 @@ fn run_case(seed: u64) -> Case {
             client.update();
             let mut got: [Vec<(u32, bool)>; 5] = Default::default();
             let mut marks = [false; 5];
-            for _ in 0..400 {
+            let mut idle_frames = 0;
+            let mut frames = 0;
+            // Loopback TCP hands the bytes to the receiving socket during the sender's write, so a
+            // receiver that sees nothing new for hundreds of its own frames is not waiting for the
+            // kernel: the stream is stalled. Only a connection that went away makes the case inconclusive.
+            while idle_frames < 300 && frames < 3000 {
+                let mut progress = false;
                 for (app, kinds) in [(&mut client, [1u8, 2]), (&mut server, [3u8, 4])] {
                     let g = std::mem::take(&mut app.world_mut().resource_mut::<Got>().0);
                     for (k, s, ok) in g {
@@ -199,20 +208,36 @@ fn run_case(seed: u64) -> Case {
                             case.errs.push(format!("round {round}: kind {k} seq {s} observed on the wrong side / channel"));
                         } else if s >= MARK {
                             marks[k as usize] = true;
+                            progress = true;
                         } else {
                             got[k as usize].push((s, ok));
+                            progress = true;
                         }
                     }
                 }
                 if marks[1..].iter().all(|m| *m) {
                     break;
                 }
+                idle_frames = if progress { 0 } else { idle_frames + 1 };
+                frames += 1;
                 std::thread::sleep(Duration::from_millis(1));
                 client.update();
                 server.update();
             }
             if !marks[1..].iter().all(|m| *m) {
-                case.inconclusive = Some(format!("round {round}: end-of-round markers did not arrive within 400 frames (machine overloaded?)"));
+                let up = client.world().resource::<RepliconClient>().is_connected() && {
+                    let mut q = server.world_mut().query::<&ConnectedClient>();
+                    q.iter(server.world()).count() == 1
+                };
+                let missing: Vec<String> = (1..=4usize)
+                    .filter(|k| !marks[*k])
+                    .map(|k| format!("{}: {} of {} arrived", ["", "S1", "S2", "C1", "C2"][k], got[k].len(), sent[k].len()))
+                    .collect();
+                if up {
+                    case.errs.push(format!("round {round}: delivery stalled although the connection is up - no message arrived during {idle_frames} receiver frames ({})", missing.join(", ")));
+                } else {
+                    case.errs.push(format!("round {round}: the transport dropped the connection while delivering ordinary messages ({})", missing.join(", ")));
+                }
                 return;
             }
             for k in 1..=4usize {
